@@ -28,6 +28,13 @@ let d = ref 0 and kind = ref "" and mat = ref [] and off = ref []
 let q0 = { qnum = Z0; qden = XH } and q1 = { qnum = Zpos XH; qden = XH }
 let identity n = List.init n (fun i -> List.init n (fun j -> if i = j then q1 else q0))
 let ok b = if b then "ok" else "bad"
+let tol = { qnum = Zpos XH; qden = (match z_of_int 1000000000 with Zpos p -> p | _ -> XH) }
+(* strict verdict (relative interior, exact) and tolerant verdict (within 1e-9 of the closed simplex) on the implementation's answer *)
+let locate_verdicts x s obs =
+  let o = (try Some (canon (parse_simplex obs)) with _ -> None) in
+  let strict = (match o with Some o -> in_rel_interior_q x o | None -> false) && in_rel_interior_q x s in
+  let tolv = (match o with Some o -> near_simplex tol x o | None -> false) in
+  sstr (canon s) ^ " # " ^ ok strict ^ " # " ^ (if tolv then "tolok" else "tolbad")
 let rec take n l = if n = 0 then [] else match l with [] -> [] | x :: r -> x :: take (n - 1) r
 let rec drop n l = if n = 0 then l else match l with [] -> [] | _ :: r -> drop (n - 1) r
 let rec until_bar = function [] -> ([], []) | "|" :: r -> ([], r) | x :: r -> let (a, b) = until_bar r in (x :: a, b)
@@ -81,23 +88,17 @@ let answer w obs =
       if !kind = "freud" then List.map (fun c -> qmult scale c) p, true
       else hint, affine_preimage_ok !mat !off scale p hint in
     if not pre then "BADHINT" else
-    let s = locate_q x in
-    let specv = (try in_rel_interior_q x (canon (parse_simplex obs)) with _ -> false) in
-    sstr (canon s) ^ " # " ^ ok (specv && in_rel_interior_q x s)
+    locate_verdicts x (locate_q x) obs
   | "LC" :: scale :: rest ->
     let x = List.map parse_q rest in
-    let s = locate_q x in
-    let specv = (try in_rel_interior_q x (canon (parse_simplex obs)) with _ -> false) in
-    sstr (canon s) ^ " # " ^ ok (specv && in_rel_interior_q x s)
+    locate_verdicts x (locate_q x) obs
   | ["LB"; scale; s] ->
     let s = parse_simplex s in
     let vs = vertex_range s in
     let k1 = { qnum = Zpos XH; qden = (match z_of_int (List.length vs) with Zpos p -> p | _ -> XH) } in
     let n = List.length (fst s) in
     let x = List.init n (fun i -> qmult k1 (List.fold_left (fun acc v -> qplus acc { qnum = List.nth v i; qden = XH }) q0 vs)) in
-    let r = locate_q x in
-    let specv = (try in_rel_interior_q x (canon (parse_simplex obs)) with _ -> false) in
-    sstr (canon r) ^ " # " ^ ok (specv && in_rel_interior_q x r)
+    locate_verdicts x (locate_q x) obs
   | ["K"; scale; v] -> qlist (cart !mat !off (parse_q scale) (parse_vertex v))
   | ["B"; scale; s] ->
     let s = parse_simplex s in
